@@ -53,6 +53,25 @@ HOSTILE_PIECES = (
 SIZES = (0, 0, 1, 1, 2, 100, 511, 512, 513, 1023, 1024, 1025, 4095, 4096, 4097, 10239, 10240, 10241,
          65535, 65536, 65537, 131072, 1048575, 1048576)
 
+def current_tier() -> str:
+    """"quick" | "thorough" for strategies that are built lazily (``prop.given(name, callable, ...)``): the
+    runner calls ``sub.strategy()`` from ``_run_given(sub, state, seed, n, tier)``. ``VERIF_TIER`` wins if the
+    runner exports it; otherwise the tier is read from that caller's frame; default "quick"."""
+    import sys
+
+    t = os.environ.get("VERIF_TIER")
+    if t in ("quick", "thorough"):
+        return t
+    f = sys._getframe(1)
+    for _ in range(6):
+        if f is None:
+            break
+        if f.f_code.co_name == "_run_given" and f.f_locals.get("tier") in ("quick", "thorough"):
+            return f.f_locals["tier"]
+        f = f.f_back
+    return "quick"
+
+
 # ------------------------------------------------------------------------------------------------
 # strategies
 
